@@ -410,6 +410,64 @@ def _budget_model(chk: Check) -> bool:
     return True
 
 
+def _drip_scenario(op: str) -> list[str]:
+    """A packet that never ends, dripping in one byte every 0.4 ms of (fake) time: recv_packet(timeout=0.3) gives up after 0.3 s -
+    waits far below a millisecond are waits too, a thousand of them are charged like one long one."""
+    from easynetwork.clients.tcp import TCPNetworkClient
+    from easynetwork.protocol import StreamProtocol
+    from easynetwork.serializers.line import StringLineSerializer
+
+    clock = vsync.FakeClock()
+    env = vsync.Env(clock)
+    a, b = harness.loopback_tcp_pair()
+    sock = vsync.ScriptedSocket(a.family, a.type, a.proto, fileno=a.detach())
+    sock.env = env
+    sock.setblocking(False)
+    orig_poll = selectors.PollSelector
+    selectors.PollSelector = lambda: vsync.ScriptedSelector(env)  # type: ignore[misc,assignment]
+    problems: list[str] = []
+    T = 0.3
+    try:
+        with vsync.patched_clock(clock):
+            client = TCPNetworkClient(sock, StreamProtocol(StringLineSerializer()), retry_interval=math.inf, max_recv_size=64)
+            for _ in range(2500):
+                env.recv_script.append(("eagain",))
+                env.recv_script.append(("data", b"x"))
+                env.select_script.append(("ready", 0.0004))
+            t0 = clock.now
+            ending = "?"
+            try:
+                if op == "recv":
+                    client.recv_packet(timeout=T)
+                else:
+                    for _p in client.iter_received_packets(timeout=T):
+                        pass
+                ending = "returned"
+            except TimeoutError:
+                ending = "timeout"
+            except vsync.SpinDetected:
+                ending = "spin"
+            except Exception as exc:  # noqa: BLE001
+                ending = "error:" + type(exc).__name__
+            elapsed = clock.now - t0
+            if op == "recv" and ending != "timeout":
+                problems.append(f"recv_packet(timeout={T}) on a packet that never ends: {ending}")
+            if elapsed > T + 0.01:
+                problems.append(f"{op}(timeout={T}) went on for {elapsed:.3f} s of waiting, in steps of 0.4 ms")
+            try:
+                client.close()
+            except Exception:  # noqa: BLE001
+                pass
+    finally:
+        selectors.PollSelector = orig_poll  # type: ignore[misc]
+        try:
+            sock.close()
+        except OSError:
+            pass
+        b.close()
+    return problems
+
+
 async def _zero_budget_iteration(kind: str, buffered: bool) -> list[str]:
     """The asynchronous iterators with a zero (or just exhausted) budget: what has already arrived is handed out, without waiting; with
     nothing there the iteration ends at once.  kind: "udp" (datagrams queued in the endpoint) | "tcp" (packets already in the client's
@@ -485,6 +543,12 @@ def run(chk: Check) -> None:
                 f"asynchronous {'UDP' if kind == 'udp' else 'TCP'} client{' (buffered path)' if buffered else ''}: {problems}",
                 {"kind": "zero_budget_iteration", "client": kind, "buffered": buffered},
             )
+    for op in ("recv", "iter"):
+        problems = _drip_scenario(op)
+        chk.traces += 1
+        chk.distinct.add(("drip", op))
+        if problems:
+            chk.violation({"kind": "drip", "op": op}, f"blocking TCP client, {op}: {problems}", {"kind": "drip", "op": op})
     # (a) endpoint receive loop
     rec = []
     for i in range(800 if quick else 10000):
